@@ -463,8 +463,9 @@ def outputs_equal(a: np.ndarray, b: np.ndarray) -> str | None:
     return None
 
 
-def semantic_diff(orig: onnx.ModelProto, new: onnx.ModelProto, feeds_list) -> str | None:
-    """None if `new` computes what `orig` computes on every feed (where `orig` executes)."""
+def semantic_diff(orig: onnx.ModelProto, new: onnx.ModelProto, feeds_list, must_run: bool = False) -> str | None:
+    """None if `new` computes what `orig` computes on every feed (where `orig` executes).
+    `must_run`: a harness error (Infra) if the original executes on none of the feeds."""
     try:
         s0 = ort_session(orig)
     except Exception as e:
@@ -477,10 +478,16 @@ def semantic_diff(orig: onnx.ModelProto, new: onnx.ModelProto, feeds_list) -> st
     n1 = [o.name for o in s1.get_outputs()]
     if n0 != n1:
         return f"output names/order {n0} vs {n1}"
+    ran = 0
+    last_err = None
     for feeds in feeds_list:
         try:
             r0 = s0.run(None, feeds)
-        except Exception:
+            ran += 1
+        except Exception as e:
+            last_err = e
+            if "Unable to handle object of type" in str(e):
+                raise core.Infra(f"harness built an invalid feed: {e}")
             continue
         try:
             ok1 = {i.name for i in s1.get_inputs()} | {i.name for i in s1.get_overridable_initializers()}
@@ -493,6 +500,8 @@ def semantic_diff(orig: onnx.ModelProto, new: onnx.ModelProto, feeds_list) -> st
             d = outputs_equal(a, b)
             if d:
                 return f"output {name}: {d}"
+    if must_run and feeds_list and not ran:
+        raise core.Infra(f"the original model executes on none of the feeds: {str(last_err)[:200]}")
     return None
 
 
